@@ -6,7 +6,9 @@
 //
 //	quick:    every second of [-3d,+3d], the full product sign x days(set) x
 //	          0..23h x 0..59m x 0..59s, and sub-second offsets at boundaries.
-//	thorough: additionally EVERY second of [-10^6 h, +10^6 h].
+//	thorough: additionally EVERY second of [-10^5 h, +10^5 h] and every day
+//	          count 0..41667 with the corner values of h, m, s
+//	          (C37_SWEEP_HOURS=1000000 sweeps every second of +-10^6 h).
 //
 // Part "spelling": every text sign? (N d)? sep (N h)? sep (N m)? sep (N s)?
 // (units in that order, at least one, each gap independently "" or " ") with
@@ -254,10 +256,9 @@ const day = 24 * time.Hour
 
 func main() {
 	// The hot loop allocates a few small strings per value and keeps almost
-	// nothing alive; with the default GC pacing 16 workers spend their time in
-	// back-to-back collections of a tiny heap. Collect only at 4 GiB instead.
-	debug.SetGCPercent(-1)
-	debug.SetMemoryLimit(4 << 30)
+	// nothing alive; with the default GC pacing 16 workers spend much of their
+	// time in back-to-back collections of a tiny heap.
+	debug.SetGCPercent(1600)
 
 	r := report.New("exploration")
 
@@ -349,14 +350,23 @@ func main() {
 		r.Set("print_subsecond_values", cnt)
 	}
 
-	// ---- part 1d (thorough): EVERY second of [-10^6 h, 10^6 h] -------------
+	// ---- part 1d (thorough): EVERY second of [-H h, +H h], and every day
+	// count of the property's range with the corner values of h, m, s.
+	// H = 100 000 by default (7.2e8 values); C37_SWEEP_HOURS=1000000 sweeps the
+	// property's whole range (7.2e9 values, about 25 min on 16 idle cores).
 	if r.Thorough() {
-		limit := int64(1000000) * 3600 // seconds
-		if v := os.Getenv("C37_DEV_HOURS"); v != "" {
-			h, _ := strconv.Atoi(v)
-			limit = int64(h) * 3600
-			r.Capped("development override C37_DEV_HOURS=" + v)
+		hours := int64(100000)
+
+		if v := os.Getenv("C37_SWEEP_HOURS"); v != "" {
+			h, err := strconv.ParseInt(v, 10, 64)
+			if err != nil || h < 1 || h > 1000000 {
+				report.Fatal("C37_SWEEP_HOURS=%q: want 1..1000000", v)
+			}
+
+			hours = h
 		}
+
+		limit := hours * 3600 // seconds
 
 		const big = int64(1) << 20
 
@@ -373,8 +383,31 @@ func main() {
 
 			l.flush(r)
 		})
-		r.Set("print_every_second_of_pm_hours", 1000000)
+		r.Set("print_every_second_of_pm_hours", hours)
 		r.Set("print_every_second_values", total)
+
+		corner := []int64{0, 1, 59}
+		cornerH := []int64{0, 1, 23}
+		maxDay := int64(41667)
+
+		enum.Par(int(maxDay+1), func(dd int) {
+			l := newLocal()
+
+			for _, sg := range signs {
+				for _, h := range cornerH {
+					for _, m := range corner {
+						for _, s := range corner {
+							d := time.Duration(sg) * (time.Duration(dd)*day + time.Duration(h)*time.Hour + time.Duration(m)*time.Minute + time.Duration(s)*time.Second)
+							l.run(printWitness(d))
+						}
+					}
+				}
+			}
+
+			l.flush(r)
+		})
+		r.Set("print_every_day_count_upto", maxDay)
+		r.Set("print_every_day_count_values", (maxDay+1)*2*27)
 	}
 
 	// ---- part 2: documented spellings --------------------------------------
